@@ -99,6 +99,7 @@ static int htp_gzip_decompressor_restart(htp_decompressor_gzip_t *drec,
     size_t consumed = 0;
     int rc = 0;
 
+    HTP_VERIF_TP(NULL, NULL, "decomp_restart");
     if (drec->restart < 3) {
 
         // first retry with the existing type, but now consider the
